@@ -144,7 +144,11 @@ def rule_cache(ctx, F):
            "the signature-cache key digests %d buffer(s) holding %s; it must digest both the canonical RRSIG RDATA "
            "(signature included) and the DNSKEY RDATA — otherwise a forged signature for a once-validated RRset is "
            "answered from the cache as valid" % (n_upd, sorted(digested)))
-    ctx.ob(R, b, "cache key covers the signed data", has_sd or len(ops) >= 3,
+    # the signed data: the buffer RrsigExt::signed_data filled is one of the key's fields (by role, not by name)
+    sd_bufs = {buf_id(b.term_of_operand(a)) for bb, t in b.calls() if (t["fn"] or "").endswith("::signed_data") for a in t["args"][1:2]}
+    key_bufs = {buf_id(tt) for tt in terms}
+    has_sd = bool(sd_bufs - {None}) and bool((sd_bufs - {None}) & key_bufs)
+    ctx.ob(R, b, "cache key covers the signed data", has_sd,
            "the signature cache key does not contain the signed data")
     ctx.ob(R, b, "cache key covers the RRSIG RDATA including the signature", "Rrsig" in hashed and n_digest >= 2,
            "the signature cache key does not depend on the signature octets (hashed record data: %s, digests in key: %d): "
@@ -177,9 +181,15 @@ def rule_nsec(ctx, F):
     if not ctx.anchor(R, "ends_with guarding the delegation/DNAME type checks", len(guarded) >= 1, b.where()):
         return
     for bb, t in guarded:
-        recv = names_in_term(b, b.term_of_operand(t["args"][0])) | ({b.var_name(s[1]) for s in walk(deep_strip(b.term_of_operand(t["args"][0]))) if s[0] == "arg"})
-        arg = names_in_term(b, b.term_of_operand(t["args"][1])) | ({b.var_name(s[1]) for s in walk(deep_strip(b.term_of_operand(t["args"][1]))) if s[0] == "arg"})
-        ok = "target" in recv and "owner" in arg and "target" not in arg
+        # roles, not names: the receiver is the queried name (the function's first parameter), the
+        # argument is the owner of the NSEC record taken from the validated groups (second parameter)
+        rt, at = b.term_of_operand(t["args"][0]), b.term_of_operand(t["args"][1])
+        recv_roots = {s[1] for s in walk(rt) if s[0] == "arg"}
+        arg_roots = {s[1] for s in walk(at) if s[0] == "arg"}
+        arg_owner = any(s[0] == "call" and re.search(r"::owner$", s[1] or "") for s in walk(at))
+        ok = 1 in recv_roots and 1 not in arg_roots and (arg_owner or 2 in arg_roots)
+        recv = {"param#%d" % r for r in recv_roots}
+        arg = {"param#%d" % r for r in arg_roots} | ({"owner()"} if arg_owner else set())
         ctx.ob(R, b, "target.ends_with(owner) guards the delegation/DNAME exclusion", ok,
                "the NSEC owner must be tested as an ancestor of the target (target.ends_with(owner)); found receiver %s, "
                "argument %s: with the operands swapped the exclusion of delegation and DNAME owners never triggers and a "
